@@ -230,6 +230,65 @@ def _literal_of(pattern) -> str | None:
     return None
 
 
+def check_preprocess_stateless(ctx: Ctx) -> None:
+    """preprocess_tag_block_spacing decides per line from that line and its neighbours: it carries no mode from line to line
+    (its only memory is the output list it appends to)."""
+    from .common import unexpected_carried
+
+    repo, prog = ctx.repo, ctx.prog
+    pp = repo.func(f"{TH}:preprocess_tag_block_spacing")
+    flow = prog.flow(pp)
+    loops = [h for h in flow.cfg.nodes if h.kind == "for"]
+    for h in loops:
+        carried, allowed = unexpected_carried(prog, pp, h)
+        bad = sorted(carried - allowed)
+        ctx.ob("R-ATOMIC-pre", f"{pp.qual} :: no mode is carried from line to line", not bad,
+               "blank lines around tag-delimited blocks are decided from the current line and its neighbours; a flag that persists across lines "
+               f"(e.g. a hand-rolled 'inside a code fence' tracker) makes the treatment of a block depend on unrelated text far above it; carried: {bad or 'none'}",
+               where(pp, h))
+
+
+def check_continuation_test(ctx: Ctx) -> None:
+    """_fix_multiline_opening_tag_with_closing splits `... %}{% /tag %}` only on lines that continue a tag opened on an earlier
+    line. Whether a line itself starts a tag is a question about the tag openers after its indentation - an indented line that
+    starts with a paired tag (inside a list item) is not a continuation."""
+    repo, prog = ctx.repo, ctx.prog
+    fm = repo.func(f"{TH}:_fix_multiline_opening_tag_with_closing")
+    flow = prog.flow(fm)
+    folder, recs, _t = _records(ctx)
+    opens = {str(r.fields["open_delim"]) for n, r in recs.items() if n.startswith("SINGLE_") and r.fields.get("open_delim")}
+    searches = [n for n, c in flow.all_calls() if isinstance(c.func, ast.Attribute) and c.func.attr in ("search", "match", "finditer")
+                and isinstance(ctx.repo.resolve_expr(c.func.value, fm.module, fm), ConstInfo)
+                and "multiline" in ctx.repo.resolve_expr(c.func.value, fm.module, fm).name]  # type: ignore[union-attr]
+    for sn in searches:
+        from .common import guard_atoms
+
+        for a, truth, b in guard_atoms(prog, fm, sn):
+            sl = prog.slice(fm, a, b, control=True)  # what decides the value, not only what it is copied from
+            callees = {q for q in sl.callees() if q in repo.functions}
+            tested: set[str] = set()
+            indent_sensitive = any(op == ".isspace()" for op, _ in sl.ops)
+            # prefixes tested directly in the function on the way to this guard, plus those of the predicates it calls
+            for d in sl.defs:
+                if d.value is not None:
+                    for c in ast.walk(d.value):
+                        if isinstance(c, ast.Call) and isinstance(c.func, ast.Attribute) and c.func.attr == "startswith" and c.args:
+                            v = _fold_strs(ctx, folder, fm, c.args[0])
+                            tested |= v or set()
+            for q in callees:
+                got = _affix_tests(ctx, folder, repo.functions[q])
+                tested |= got["startswith"]
+                for c in ast.walk(repo.functions[q].node):
+                    if isinstance(c, ast.Call) and isinstance(c.func, ast.Attribute) and c.func.attr == "isspace":
+                        indent_sensitive = True
+            if not (tested & opens):
+                continue  # not the tag-start test
+            ctx.ob("R-ATOMIC-cont", f"{fm.qual} :: tag-start test of the continuation check", opens <= tested and not indent_sensitive,
+                   "a line is a continuation unless it starts (after its indentation) with one of the four tag openers; the test looks at "
+                   f"{sorted(tested)}" + (" and at the line's indentation (isspace): an indented line that begins with a paired tag would be split" if indent_sensitive else ""),
+                   where(fm, b))
+
+
 def check_post_passes(ctx: Ctx) -> None:
     """The tag post-passes run on every exit of the tag newline handler."""
     repo, prog = ctx.repo, ctx.prog
